@@ -41,14 +41,19 @@ w('//@ func (k Keeper) GetAllCustomPrecompiledContracts(ctx sdk.Context) (contra
 w('//@   requires k.storeKey != nil && k.cdc != nil')
 w('//@   modifies nothing')
 w(f'//@   ensures[C17.one_object_per_record] len(contracts) == {N("ctx","k")}')
-w(f'//@   ensures[C17.object_of_known_type] forall i int :: (0 <= i && i < len(contracts)) ==> {OBJ_TYPE("contracts[i]")}')
+w(f'//@   ensures[C17.records_of_known_type] forall i int :: (0 <= i && i < len(contracts)) ==> (1 <= pbMetaType({REC("ctx","k","i")}) && pbMetaType({REC("ctx","k","i")}) <= 3)')
+for n, T in enumerate(CPC_TYPES):
+    w(f'//@   ensures[C17.object_type_of_record_{SHORT(T)}] forall i int :: (0 <= i && i < len(contracts)) ==> (pbMetaType({REC("ctx","k","i")}) == {n+1} ==> typeof(contracts[i]) == type(*{T}))')
 for T in CPC_TYPES:
     w(f'//@   ensures[C17.object_is_record_{SHORT(T)}] forall i int :: (0 <= i && i < len(contracts)) ==> {OBJ_META("contracts[i]", T, REC("ctx","k","i"))}')
     w(f'//@   ensures[C17.object_executors_{SHORT(T)}] forall i int :: (0 <= i && i < len(contracts)) ==> {OBJ_EXECS("contracts[i]", T)}')
 w('//@   ensures cap(contracts) == 0 || fresh(base(contracts))')
 w('//@ loop 1')
 w('//@   fresh_writes')
-w(f'//@   invariant -1 <= rangeindex && rangeindex < len(metas) && len(contracts) == rangeindex + 1 && (cap(contracts) == 0 || fresh(base(contracts))) && (forall i int :: (0 <= i && i <= rangeindex) ==> {OBJ_TYPE("contracts[i]")})')
+w(f'//@   invariant -1 <= rangeindex && rangeindex < len(metas) && len(contracts) == rangeindex + 1 && (cap(contracts) == 0 || fresh(base(contracts)))')
+w(f'//@   invariant forall i int :: (0 <= i && i <= rangeindex) ==> (1 <= pbMetaType({REC("ctx","k","i")}) && pbMetaType({REC("ctx","k","i")}) <= 3)')
+for n, T in enumerate(CPC_TYPES):
+    w(f'//@   invariant forall i int :: (0 <= i && i <= rangeindex) ==> (pbMetaType({REC("ctx","k","i")}) == {n+1} ==> typeof(contracts[i]) == type(*{T}))')
 for T in CPC_TYPES:
     w(f'//@   invariant forall i int :: (0 <= i && i <= rangeindex) ==> {OBJ_META("contracts[i]", T, REC("ctx","k","i"))}')
     w(f'//@   invariant forall i int :: (0 <= i && i <= rangeindex) ==> {OBJ_EXECS("contracts[i]", T)}')
